@@ -5,6 +5,7 @@ package main
 
 import (
 	"fmt"
+	"go/ast"
 	"go/constant"
 	"go/token"
 	"go/types"
@@ -24,6 +25,7 @@ type goPanic struct {
 	msg     string
 	runtime bool
 	site    string
+	fn      string
 }
 
 type deferred struct {
@@ -97,6 +99,9 @@ type Interp struct {
 	timeNow  *Term
 	chanSeq  int
 	sched    *Sched
+	curFn    string
+	funcs    map[string]bool
+	probes   map[string]Value
 	ghostT   types.Type
 }
 
@@ -354,6 +359,9 @@ func (it *Interp) call(fn *ssa.Function, args []Value, bind []Value) Value {
 		it.inconclusive("call depth exceeded in " + name)
 	}
 	fr := &frame{fn: fn, env: make(map[ssa.Value]Value, 16), bind: bind}
+	if fn.Pkg != nil && strings.HasPrefix(fn.Pkg.Pkg.Path(), repoModule) && !it.isHarnessFn(fn) {
+		it.funcs[name] = true
+	}
 	for i, p := range fn.Params {
 		if i < len(args) {
 			fr.env[p] = args[i]
@@ -390,6 +398,9 @@ func (it *Interp) runFrame(fr *frame) (result Value) {
 		gp, ok := r.(*goPanic)
 		if !ok {
 			panic(r)
+		}
+		if gp.fn == "" {
+			gp.fn = fr.fn.String()
 		}
 		// interpreted panic: run this frame's defers, allow recover
 		fr.panicking = gp
@@ -534,6 +545,7 @@ func (it *Interp) run(fr *frame) Value {
 				p := it.prog.Fset.Position(pos)
 				it.curSite = fmt.Sprintf("%s:%d", shortFile(p.Filename), p.Line)
 			}
+			it.curFn = fr.fn.String()
 			var done bool
 			var ret Value
 			if fr.tolerant {
@@ -615,6 +627,13 @@ func (it *Interp) term(v Value, what string) *Term {
 func (it *Interp) exec(fr *frame, ins ssa.Instruction) (next *ssa.BasicBlock, ret Value, done bool) {
 	switch x := ins.(type) {
 	case *ssa.DebugRef:
+		if it.job.Probe != nil && !x.IsAddr {
+			if id, ok := x.Expr.(*ast.Ident); ok {
+				if it.job.Probe(it, fr.fn, id.Name, it.get(fr, x.X)) {
+					panic(pathEnd{"stop", "probe"})
+				}
+			}
+		}
 	case *ssa.Alloc:
 		pt := x.Type().(*types.Pointer)
 		lbl := x.Comment
@@ -1100,6 +1119,7 @@ func (it *Interp) makeSlice(x *ssa.MakeSlice, lv, cv Value) Value {
 		if it.job.OnAlloc != nil {
 			it.job.OnAlloc(it, it.allocs[len(it.allocs)-1])
 		}
+		it.allocOracle(it.allocs[len(it.allocs)-1])
 		neg := it.ctx.SLT(lt, it.ctx.BV(0, 64))
 		if it.branch(neg, "makeneg@"+it.curSite) {
 			it.rtPanic("makeslice: len out of range")
